@@ -112,6 +112,22 @@ pub struct BatchCfg {
     pub determinism_every: u64,
     pub shrink_budget: usize,
     pub verif_dir: PathBuf,
+    /// violations established outside the seeded batch (the concurrent-purity stress of C19):
+    /// reported, listed in the evidence and matched against the known findings like the others
+    pub pre_found: Vec<PreFound>,
+    /// extra entries for the evidence's `coverage` object
+    pub extra_coverage: Vec<(String, Value)>,
+    /// the in-check determinism sample may differ (set only when a `pre_found` violation explains
+    /// it: results that depend on what other worker threads decode at the same moment)
+    pub tolerate_det_mismatch: bool,
+}
+
+#[derive(Clone, Debug)]
+pub struct PreFound {
+    pub engine: String,
+    pub signature: String,
+    pub detail: String,
+    pub scenario: Value,
 }
 
 impl BatchCfg {
@@ -140,6 +156,9 @@ impl BatchCfg {
             determinism_every: 50,
             shrink_budget: 4000,
             verif_dir: verif_dir(),
+            pre_found: vec![],
+            extra_coverage: vec![],
+            tolerate_det_mismatch: false,
         }
     }
 }
@@ -400,7 +419,7 @@ pub fn run_batch<E: Engine>(engine: &E, cfg: &BatchCfg) -> BatchReport {
         std::fs::write(path, text).unwrap_or_else(|e| harness_error(&format!("cannot write {path}: {e}")));
     }
 
-    if !a.det_mismatch.is_empty() {
+    if !a.det_mismatch.is_empty() && !cfg.tolerate_det_mismatch {
         a.det_mismatch.sort();
         harness_error(&format!(
             "determinism self-check failed: runs {:?} gave different trace hashes when executed twice",
@@ -433,6 +452,33 @@ pub fn run_batch<E: Engine>(engine: &E, cfg: &BatchCfg) -> BatchReport {
     let out_dir = std::env::var("VERIF_OUT_DIR").map(PathBuf::from).unwrap_or_else(|_| cfg.verif_dir.clone());
     let replay_dir = out_dir.join("replays");
     let _ = std::fs::create_dir_all(&replay_dir);
+    // violations established outside the batch
+    let mut pre_reported = 0i64;
+    for pf in &cfg.pre_found {
+        if let Some(k) = known.matches(engine.property(), &pf.signature, &pf.detail) {
+            if known_hit.insert(k.what.clone()) {
+                println!("KNOWN-FINDING: property={} {}", engine.property(), k.what);
+            }
+            continue;
+        }
+        let rf = ReplayFile { property: engine.property().to_string(), engine: pf.engine.clone(), seed: cfg.seed, run: 0, signature: pf.signature.clone(), detail: pf.detail.clone(), trace_hash: String::new(), scenario: pf.scenario.clone() };
+        let path = replay_dir.join(format!("{}-{:016x}.json", engine.property(), fnv_str(&pf.signature)));
+        std::fs::write(&path, serde_json::to_string_pretty(&rf).unwrap()).unwrap_or_else(|e| harness_error(&format!("cannot write replay: {e}")));
+        println!("violation: signature={}", pf.signature);
+        for l in pf.detail.lines().take(40) {
+            println!("  | {l}");
+        }
+        println!("VIOLATION property={} replay={}", engine.property(), path.display());
+        reported.push(json!({"signature": pf.signature, "replay": path.display().to_string(), "runs": 1}));
+        exit_code = 1;
+        pre_reported += 1;
+    }
+    if cfg.tolerate_det_mismatch && (!a.det_mismatch.is_empty() || !by_sig.is_empty()) {
+        // the batch ran 'threads' workers in one process against code whose results depend on
+        // concurrent activity: what it found cannot be replayed and is only counted
+        println!("note: {} run(s) of the batch differed when executed twice and {} signature(s) were seen in the batch; not minimised (results depend on concurrent decodes, see the violation above)", a.det_mismatch.len(), by_sig.len());
+        by_sig.clear();
+    }
     for (sig, f) in by_sig.iter().take(12) {
         let (min_sc, min_out) = minimise(engine, &f.sc, sig, cfg.shrink_budget);
         let v = min_out.violation.clone().unwrap();
@@ -486,7 +532,7 @@ pub fn run_batch<E: Engine>(engine: &E, cfg: &BatchCfg) -> BatchReport {
             "virtual_seconds_total": (a.virtual_ns as f64) / 1e9,
             "simulated_steps_total": a.steps,
             "runs_per_hour": if wall_search > 0.0 { (a.evaluations as f64 / wall_search * 3600.0) as u64 } else { 0 },
-            "determinism_sample": {"runs_executed_twice": a.det_runs, "mismatches": 0},
+            "determinism_sample": {"runs_executed_twice": a.det_runs, "mismatches": a.det_mismatch.len()},
             "components": engine.components(),
             "known_findings_hit": known_hit.iter().collect::<Vec<_>>(),
             "inconclusive": a.inconclusive,
@@ -499,6 +545,11 @@ pub fn run_batch<E: Engine>(engine: &E, cfg: &BatchCfg) -> BatchReport {
         "wall_s": wall,
         "violations": by_sig.len() as i64,
     });
+    let mut ev = ev;
+    for (k, v) in &cfg.extra_coverage {
+        ev["coverage"][k.as_str()] = v.clone();
+    }
+    ev["violations"] = json!(by_sig.len() as i64 + pre_reported);
     let evdir = out_dir.join("evidence");
     let _ = std::fs::create_dir_all(&evdir);
     let evpath = evdir.join(format!("{}.json", engine.property()));
